@@ -19,6 +19,130 @@ def on_message_handlers(cls: ClassInfo) -> dict[str, list[FuncInfo]]:
     return out
 
 
+def _expand_single(at: ast.AST, e: ast.AST, depth: int = 2) -> ast.AST:
+    """Replace locals of the enclosing function that are assigned exactly once by their definition (used for loop iterables)."""
+    fnode = next((a for a in ancestors(at) if isinstance(a, FUNC_NODES)), None)
+    fi = getattr(fnode, '_info', None)
+    if fi is None:
+        return e
+    sa = single_assignments(fi)
+    cur = e
+    for _ in range(depth):
+        names = [n for n in ast.walk(cur) if isinstance(n, ast.Name) and n.id in sa and sa[n.id] is not None and isinstance(n.ctx, ast.Load)]
+        if not names:
+            break
+
+        class T(ast.NodeTransformer):
+            def visit_Name(self, n: ast.Name):
+                if isinstance(n.ctx, ast.Load) and n.id in sa and sa[n.id] is not None:
+                    return ast.parse(unparse(sa[n.id]), mode='eval').body
+                return n
+        cur = T().visit(ast.parse(unparse(cur), mode='eval').body)
+    return cur
+
+
+def loop_binders(node: ast.AST) -> dict[str, str]:
+    """Canonical names for the loop variables visible at `node` (nearest enclosing loop wins): a variable is named after WHAT it iterates,
+    not after its spelling -- `for idx, name in enumerate(message.users)` gives name -> elem(message.users), idx -> index(message.users)."""
+    out: dict[str, str] = {}
+    for a in ancestors(node):
+        if not isinstance(a, (ast.For, ast.AsyncFor)):
+            continue
+        it = a.iter
+        names: dict[str, str] = {}
+        outer = loop_binders(a)        # the iterable is evaluated outside the loop it feeds
+        it = _expand_single(a, it)
+        src = unparse(canon(it, outer))
+        if isinstance(a.target, ast.Name):
+            names[a.target.id] = f'elem({src})'
+        elif isinstance(a.target, ast.Tuple) and all(isinstance(x, ast.Name) for x in a.target.elts):
+            els = [x.id for x in a.target.elts]
+            if isinstance(it, ast.Call) and call_name(it) == 'enumerate' and it.args and len(els) == 2:
+                inner = unparse(canon(it.args[0], outer))
+                names[els[0]], names[els[1]] = f'index({inner})', f'elem({inner})'
+            elif isinstance(it, ast.Call) and call_name(it) == 'items' and len(els) == 2 and isinstance(it.func, ast.Attribute):
+                inner = unparse(canon(it.func.value, outer))
+                names[els[0]], names[els[1]] = f'key({inner})', f'value({inner})'
+            elif isinstance(it, ast.Call) and call_name(it) == 'zip' and len(it.args) == len(els):
+                for nm_, arg_ in zip(els, it.args):
+                    names[nm_] = f'elem({unparse(canon(arg_, outer))})'
+            else:
+                for i_, nm_ in enumerate(els):
+                    names[nm_] = f'elem({src})[{i_}]'
+        for k_, v_ in names.items():
+            out.setdefault(k_, v_)
+    return out
+
+
+def canon(e: Optional[ast.AST], binders: Optional[dict] = None) -> Optional[ast.AST]:
+    """Copy of expression `e` with loop variables replaced by their canonical names (see loop_binders)."""
+    if e is None:
+        return None
+    b = loop_binders(e) if binders is None else binders
+    if not b:
+        return e
+
+    class T(ast.NodeTransformer):
+        def visit_Name(self, n: ast.Name):
+            if n.id in b and isinstance(n.ctx, ast.Load):
+                return ast.parse(b[n.id], mode='eval').body
+            return n
+    new = T().visit(ast.parse(unparse(e), mode='eval').body)
+    return ast.fix_missing_locations(new)
+
+
+def reaching_def(name: str, ctx: ast.AST) -> Optional[ast.Assign]:
+    """Nearest assignment `name = ...` that precedes statement `ctx` in one of the statement lists enclosing it (innermost first).
+    Good enough for the handlers of this repository: a local is (re)assigned at the top of the loop body that uses it."""
+    cur = ctx
+    while cur is not None and not isinstance(cur, FUNC_NODES):
+        par = parent(cur)
+        if par is None:
+            break
+        for fld in ('body', 'orelse', 'finalbody'):
+            blk = getattr(par, fld, None)
+            if isinstance(blk, list) and any(x is cur for x in blk):
+                idx = next(i for i, x in enumerate(blk) if x is cur)
+                for st in reversed(blk[:idx]):
+                    if isinstance(st, ast.Assign) and len(st.targets) == 1 and isinstance(st.targets[0], ast.Name) and st.targets[0].id == name:
+                        return st
+        cur = par
+    return None
+
+
+def expand_c(fn: FuncInfo, e: ast.AST, depth: int = 3, ctx: Optional[ast.AST] = None) -> ast.AST:
+    """expand_aliases with canonical loop variables: the expression and every substituted definition are canonicalised in THEIR OWN
+    context (the definition `user = get_user_object(name)` sits inside the loop that binds `name`).  A local that is assigned more than
+    once (e.g. `room = ...` at the top of several loops) is resolved to the assignment that reaches the use."""
+    sa = single_assignments(fn)
+    if ctx is None and getattr(e, '_parent', None) is not None:
+        ctx = enclosing_stmt(e)
+    binders = loop_binders(ctx) if ctx is not None else None
+
+    def subst(node: ast.AST, at: Optional[ast.AST], d: int) -> ast.AST:
+        b = loop_binders(at) if at is not None else {}
+
+        class T(ast.NodeTransformer):
+            def visit_Name(self, n: ast.Name):
+                if not isinstance(n.ctx, ast.Load):
+                    return n
+                if n.id in b:
+                    return ast.parse(b[n.id], mode='eval').body
+                if d <= 0:
+                    return n
+                df = reaching_def(n.id, at) if at is not None else None
+                if df is not None:
+                    return subst(ast.parse(unparse(df.value), mode='eval').body, df, d - 1)
+                if n.id in sa and sa[n.id] is not None:
+                    dnode = sa[n.id]
+                    dst = enclosing_stmt(dnode) if getattr(dnode, '_parent', None) is not None else None
+                    return subst(ast.parse(unparse(dnode), mode='eval').body, dst, d - 1)
+                return n
+        return T().visit(node)
+    out = subst(ast.parse(unparse(e), mode='eval').body, ctx, depth)
+    return ast.parse(unparse(out), mode='eval').body
+
+
 def value_class(fn: FuncInfo, e: Optional[ast.AST]) -> str:
     """Provenance class of a value: where does it come from?"""
     if e is None:
@@ -27,7 +151,7 @@ def value_class(fn: FuncInfo, e: Optional[ast.AST]) -> str:
         b = built_from(fn, e.id)
         if b:
             return f'built:{b}'
-    x = expand_aliases(fn, e)
+    x = expand_c(fn, e)
     s = unparse(x)
     if isinstance(x, ast.Constant):
         return f'const:{x.value!r}'
@@ -50,7 +174,7 @@ def value_class(fn: FuncInfo, e: Optional[ast.AST]) -> str:
 
 def target_of(fn: FuncInfo, e: ast.AST, depth: int = 0) -> str:
     """Which replica object does an expression denote: room(message.room) / user(message.username) / ..."""
-    x = expand_aliases(fn, e)
+    x = expand_c(fn, e)
     s = unparse(x)
     if isinstance(x, ast.Call):
         nm = call_name(x)
@@ -96,7 +220,7 @@ def effects_of(eng: Engine, fn: FuncInfo) -> list[dict]:
     out = []
 
     def conds(node) -> list[str]:
-        return sorted({('' if pol else 'not ') + unparse(e) for e, pol, _ in eng.guards_at(fn, node)})
+        return sorted({('' if pol else 'not ') + unparse(expand_c(fn, e, depth=3, ctx=enclosing_stmt(node))) for e, pol, _ in eng.guards_at(fn, node)})
 
     def drop_presence_tests(eff: dict, node) -> dict:
         """`if k in d: del d[k]` and `try: del d[k] except KeyError` have the same effect on the replica (remove if present); the
@@ -107,7 +231,7 @@ def effects_of(eng: Engine, fn: FuncInfo) -> list[dict]:
         keep = []
         for e, pol, _ in eng.guards_at(fn, node):
             a = cmp_atom(e)
-            txt = ('' if pol else 'not ') + unparse(e)
+            txt = ('' if pol else 'not ') + unparse(expand_c(fn, e, depth=3, ctx=enclosing_stmt(node)))
             if a and a[0] == 'in' and isinstance(a[2], ast.Attribute) and a[2].attr == eff['field'] and target_of(fn, a[2].value) == eff['on'] and \
                     pol == (eff['kind'] == 'REMOVE'):
                 v = value_class(fn, a[1])
@@ -120,7 +244,7 @@ def effects_of(eng: Engine, fn: FuncInfo) -> list[dict]:
         return eff
 
     def loops(node) -> list[str]:
-        return [unparse(a.iter) for a in ancestors(node) if isinstance(a, ast.For)]
+        return [unparse(canon(a.iter)) for a in ancestors(node) if isinstance(a, ast.For)]
     for n in walk_local(fn.node):
         if isinstance(n, ast.Assign):
             for t in n.targets:
@@ -181,7 +305,7 @@ def event_args(eng: Engine, fn: FuncInfo) -> list[dict]:
         if not c.args or not isinstance(c.args[0], ast.Call):
             continue
         ev = c.args[0]
-        d = {'event': unparse(ev.func), 'if': sorted({('' if pol else 'not ') + unparse(e) for e, pol, _ in eng.guards_at(fn, c)})}
+        d = {'event': unparse(ev.func), 'if': sorted({('' if pol else 'not ') + unparse(expand_c(fn, e, depth=3, ctx=enclosing_stmt(c))) for e, pol, _ in eng.guards_at(fn, c)})}
         args = {}
         fields = event_fields(eng, unparse(ev.func))
         for i, a in enumerate(ev.args):
@@ -235,7 +359,11 @@ def run(eng: Engine, ck: Check):
         ok = any(isinstance(n, ast.Assign) and unparse(n.targets[0]) == 'self._MESSAGE_MAP' and unparse(n.value) == 'build_message_map(self)' for n in walk_local(init.node))
         ck.ob('R-C19-EXHAUSTIVE', init, init.node, f'{cls.name} builds its message map from the decorated handlers', ok, '', construct=f'{cls.name} message map')
         omr = cls.methods.get('_on_message_received')
-        ok = omr is not None and 'self._MESSAGE_MAP[message.__class__](message, event.connection)' in unparse(omr.node) and \
+        evp = [p_ for p_ in omr.params if p_ != 'self'][0] if omr is not None else 'event'
+        disp = [x for x in calls_in(omr.node) if isinstance(x.func, ast.Subscript) and unparse(x.func.value) == 'self._MESSAGE_MAP'] if omr is not None else []
+        ok = omr is not None and len(disp) == 1 and len(disp[0].args) == 2 and \
+            unparse(expand_aliases(omr, disp[0].func.slice)) == f'{evp}.message.__class__' and unparse(expand_aliases(omr, disp[0].args[0])) == f'{evp}.message' and \
+            unparse(expand_aliases(omr, disp[0].args[1])) == f'{evp}.connection' and \
             omr in eng.res.graph() and omr in eng.res.event_handlers.get('MessageReceivedEvent', [])
         ck.ob('R-C19-EXHAUSTIVE', omr or cls, (omr or cls).node, f'{cls.name} dispatches every received message through the map', bool(ok), '', construct=f'{cls.name} dispatch')
     ck.floor('R-C19-EXHAUSTIVE', len(pinned), 26)
